@@ -19,6 +19,9 @@ def proj_sel(tomo, testers="pauli"):
     predicted distributions differ between schedules."""
     if testers == "pauli":
         return {"qst": dict(povms=[0, 1, 2]), "povmt": dict(states=[0, 1, 2, 3])}[tomo]
+    if testers == "over":
+        # over-complete: more testers than needed (the left inverse is not an inverse)
+        return {"qst": dict(povms=[0, 1, 2, 5]), "povmt": dict(states=[0, 1, 2, 3, 4])}[tomo]
     return {"qst": dict(povms=[0, 6, 1]), "povmt": dict(states=[4, 1, 2, 3])}[tomo]
 
 
@@ -140,7 +143,7 @@ def ob_cov(tomo, m, flag, N, testers="pauli"):
     return FnOb(reals("x", nf, -1.0, 1.0), run, assume=assume, eager_ite=True, max_paths=20, expect_nonlinear=True)
 
 
-def ob_mse_linear(tomo, m, flag, N, mode, testers="pauli"):
+def ob_mse_linear(tomo, m, flag, N, mode, testers="pauli", uneven=False):
     """calc_mse_linear_analytical(mode) == E |estimate - truth|^2, the expectation taken exactly over all multinomial outcomes with the
     estimate computed by the REAL LinearEstimator on each concrete data set k/N (truth symbolic)"""
     nv = c03.n_var(TOMO_TYPE[tomo], 2, m, flag)
@@ -160,18 +163,18 @@ def ob_mse_linear(tomo, m, flag, N, mode, testers="pauli"):
         obj = tmpl.generate_from_var(x)
         ps = true_probs(tomo, m, flag, x, sched, sel)
         S = len(sched)
-        Ns = [N] * S
+        Ns = [N + (j % 2 if uneven else 0) for j in range(S)]        # uneven: sample sizes differ between schedules
         got = qt.calc_mse_linear_analytical(obj, Ns, mode=mode)
         truth_var = list(flat(x))
         truth_st = list(c03.ref_stacked_from_var(TOMO_TYPE[tomo], 2, m, flag, x))
         est = LinearEstimator()
-        per = [count_vectors(N, len(pj)) for pj in ps]
+        per = [count_vectors(Ns[j], len(pj)) for j, pj in enumerate(ps)]
         exp = 0
         for combo in itertools.product(*per):
             w = 1.0
-            for kv, pj in zip(combo, ps):
-                w = w * pmf(kv, pj, N)
-            data = [(N, np.array(kv, dtype=np.float64) / N) for kv in combo]
+            for j, (kv, pj) in enumerate(zip(combo, ps)):
+                w = w * pmf(kv, pj, Ns[j])
+            data = [(Ns[j], np.array(kv, dtype=np.float64) / Ns[j]) for j, kv in enumerate(combo)]
             r = est.calc_estimate(qt, data)
             if mode == "var":
                 ev = nd.to_concrete(np.asarray(r.estimated_var, dtype=object)) if nd.is_concrete(r.estimated_var) else r.estimated_var
@@ -381,6 +384,10 @@ def obligations(tier):
             out += specs("C19.crb", [{"tomo": tomo, "m": m, "flag": flag, "testers": "mixed"}], ob_crb, 6)
             out += specs("C19.cov", [{"tomo": tomo, "m": m, "flag": flag, "N": 2, "testers": "mixed"}], ob_cov, 3)
             out += specs("C19.mse_linear", [{"tomo": tomo, "m": m, "flag": flag, "N": 1, "mode": md, "testers": "mixed"} for md in ("var", "qoperation")], ob_mse_linear, 10)
+    # over-complete tester sets with sample sizes that differ between schedules
+    for mode in ("var", "qoperation"):
+        out += specs("C19.mse_linear", [{"tomo": "qst", "m": 0, "flag": fl, "N": 1, "mode": mode, "testers": "over", "uneven": True} for fl in (True, False)], ob_mse_linear, 10)
+    out += specs("C19.mse_linear", [{"tomo": "povmt", "m": 2, "flag": True, "N": 1, "mode": "qoperation", "testers": "over", "uneven": True}], ob_mse_linear, 10)
     out += specs("C19.helpers", [{"n": n} for n in (2, 3)], ob_helpers, 1)
     out += specs("C19.fisher.boundary", [{}], ob_fisher_boundary, 1)
     out += specs("C19.data_analysis", [{"typ": "state", "m": 0}, {"typ": "povm", "m": 3}] + tiers(tier, [], [{"typ": "mprocess", "m": 2}]), ob_data_analysis, 2)
